@@ -18,6 +18,8 @@ SizeLike == ListedUnbounded \cup {"CODE.RAND", "INTVECTOR.FROMINT", "INDEX.DEFIN
 IntPool == {MinInt, -1, 0, 1, 3, 2000, 100000, MaxInt}
 Ints == UNION {[1..k -> IntPool] : k \in 0..2} \cup {<<a, 2, 1, 5>> : a \in IntPool} \cup {<<5, a, 1, 2>> : a \in IntPool}
         \cup {<<a, 9, 3>> : a \in IntPool} \cup {<<a, 1, 1>> : a \in IntPool} \cup {<<3, 1, a>> : a \in IntPool}
+        \* mid-range pairs (size, index, dimensions): each operand harmless alone
+        \cup {<<a, 3, b>> : a \in {36, 64, 65, 100, 2000}, b \in {12, 16, 20, 36, 64, 65, 70, 100}}
 Base == [EmptyState EXCEPT !.float = <<1056964608, FOne, FOne>>, !.code = <<IList(<<IInt(1), IBool(TRUE)>>)>>,
                            !.ivec = <<<<1, 2>>>>, !.bvec = <<<<TRUE>>>>, !.name = <<"true", "a">>, !.index = <<[cur |-> 0, dst |-> 1]>>]
 Doubling == {<<IList(<<IIns("CODE.QUOTE"), IList(<<IInt(1)>>), IIns("EXEC.Y"), IList(<<IIns("CODE.DUP"), IIns("CODE.LIST")>>)>>)>>,
